@@ -117,7 +117,7 @@ def oz(x):
 
 
 def idx_t(ix):
-    return core.coq_list(ix, lambda p: f"({p[0]}%nat,{p[1]}%nat)")
+    return "[" + ";".join(map(str, ix)) + "]"
 
 
 def expected_disguise(c):
@@ -135,12 +135,12 @@ def case_term(c, r):
     w, h = r["image_size"]
     lines = [R.strip_payload(lexer.lex(s)) for s in r["lines"]]
     tbl = [R.strip_payload(lexer.lex(s)) for s in r["tbl"]]
-    obs = core.coq_list(r["obs"], lambda o: (
-        f"{{| o_tl := {o[0]}; o_tt := {o[1]}; o_cols := {oz(o[2])}; o_rows := {oz(o[3])}; o_idx := {idx_t(o[4])} |}}"))
+    obs = "[" + ";\n".join(f"Ob {o[0]} {o[1]} {oz(o[2])} {oz(o[3])} {core.z(o[4]).replace('%Z', '')} {idx_t(o[5])}"
+                            for o in r["obs"]) + "]"
     return (f"{{| c_gfx := {R.b(not r['text'])}; c_d := {expected_disguise(c)}%nat; c_W := {W}; c_H := {H}; "
             f"c_w := {w}; c_h := {h}; c_ha := {al(c['ha'])}%nat; c_va := {al(c['va'])}%nat; "
             f"c_lines := {core.coq_list(lines, lexer.coq_toks)}; c_tbl := {core.coq_list(tbl, lexer.coq_toks)}; "
-            f"c_full := {idx_t(r['full'])}; c_obs := {obs} |}}")
+            f"c_fd := {core.z(r['fd']).replace('%Z', '')}; c_full := {idx_t(r['full'])}; c_obs := {obs} |}}")
 
 
 def describe(c, r=None):
@@ -168,7 +168,7 @@ def python_oracle(c, r):
         why.append(f"box widget: canvas size {(W, H)} != requested {tuple(c['size'])}")
     if not r["text"]:
         # byte-exact selection of lines (payloads included) on vertical trims
-        for tl, tt, cols, rows, ix in r["obs"]:
+        for tl, tt, cols, rows, dis, ix in r["obs"]:
             cc = W - tl if cols is None else cols
             rr = H - tt if rows is None else rows
             if tl == 0 and cc == W and ix != r["full"][tt:tt + rr]:
@@ -179,7 +179,7 @@ def python_oracle(c, r):
 
 def evaluate(cases, tag):
     """Returns per case: (code, reason list, impl result); plus infrastructure errors."""
-    impl = core.run_impl_parallel("impl_c17.py", cases, chunk=max(1, len(cases) // (core.NCPU * 2) or 1))
+    impl = core.run_impl_parallel("impl_c17.py", cases, chunk=max(40, (len(cases) + core.NCPU - 1) // core.NCPU))
     terms, owner = [], []
     out = [[0, [], r] for r in impl]
     for i, (c, r) in enumerate(zip(cases, impl)):
@@ -275,7 +275,7 @@ def classify(c, r, hist, distinct, ci):
     def where(x, a, n):  # position x on an axis with near padding a and image n
         return "near-pad" if x < a else "image" if x < a + n else "far-pad"
 
-    for tl, tt, cols, rows, ix in r["obs"]:
+    for tl, tt, cols, rows, dis, ix in r["obs"]:
         cc = W - tl if cols is None else cols
         rr = H - tt if rows is None else rows
         hk = f"h:{where(tl, pl, w)}..{where(tl + cc - 1, pl, w)}"
